@@ -666,6 +666,10 @@ class ExpressionValue(Value):
     def extract_address_index_from_expression(self):
         return self.left.int if self.left.is_address() else self.right.int
 
+    def extract_constant_from_expression(self):
+        constant = self.left.int if self.left.is_numeric() else self.right.int
+        return -constant if self.operation == "-" else constant
+
     def calculate_address_offset(self, statements):
         address_index = self.left.int if self.left.is_address() else self.right.int
         additional_value = self.left.int if self.left.is_numeric() else self.right.int
